@@ -175,9 +175,37 @@ class C17(Check):
             add("h2s " + (1 << i).to_bytes(32, "little").hex(), "h2s-single-bit")
         for _ in range(20000 if tier == "quick" else 300000):
             add("h2s " + rng.getrandbits(256).to_bytes(32, "little").hex(), "h2s-random")
+        # the trait default method Hashable::hash_to_scalar (= int_le(self.hash()) mod l) on hashable objects: public keys
+        # (hash = Keccak of the 32 key bytes) and the transactions / prefixes of the repository's test data
+        import os
+        keys = ["5866666666666666666666666666666666666666666666666666666666666666",
+                "0100000000000000000000000000000000000000000000000000000000000000",
+                "8b655970153799af2aeadc9ff1add0ea6c7251d54154cfa92c173a0dd39c1f94",
+                "c9a3f86aae465f0e56513864510f3997561fa2c9e85ea21dc2292309f3cd6022"]
+        for k in keys:
+            cs.append(Case("trait_h2s pk " + k, "trait-h2s-pk"))
+        here = os.path.dirname(os.path.dirname(os.path.dirname(os.path.abspath(__file__))))
+        for l in list(open(os.path.join(here, "corpus", "tx_ids.txt")))[:8]:
+            h = l.split()[0]
+            if len(h) < 6000:
+                cs.append(Case("trait_h2s tx " + h, "trait-h2s-tx"))
         return cs
 
+    def evalA_ok(self, line):
+        return not line.startswith("trait_h2s")        # key validation / long transactions are slow under vm_compute
+
     def oracle(self, case, impl, ctx):
+        if case.line.startswith("trait_h2s "):
+            _, T, arg = case.line.split(" ")
+            w = impl.split(" ")
+            if T == "pk":
+                d = keccak256(bytes.fromhex(arg))
+                want = "OK " + (int.from_bytes(d, "little") % L).to_bytes(32, "little").hex()
+                if impl != want:
+                    return "Hashable::hash_to_scalar of a public key: implementation %s, int_le(Keccak(key)) mod l = %s" % (impl[:100], want)
+            elif w[0] != "OK":
+                return "Hashable::hash_to_scalar of a parsable transaction did not return: " + impl[:60]
+            return None
         op, arg = case.line.split(" ")
         w = impl.split(" ")
         if w[0] in ("PANIC", "ABORT", "TIMEOUT"):
@@ -197,6 +225,8 @@ class C17(Check):
         return None
 
     def neighbours(self, case, rng):
+        if case.line.startswith("trait_h2s "):
+            return []
         op, arg = case.line.split(" ")
         out = []
         b = b"" if arg == "-" else bytes.fromhex(arg)
